@@ -1204,7 +1204,9 @@ fn render_match_type(type_def: &Type) -> String {
         | Type::Identifier { .. }
         | Type::ModuleType { .. }
         | Type::SelfDefault { .. } => true,
-        Type::Tuple(tuple_type) => tuple_type.is_partial,
+        // A partial type with fields needs its own parentheses: bare, `(x: T)` / `A(x: T)` re-parses
+        // as a partial *pattern*, which the parser tries first. Only the empty `()` / `A()` is safe.
+        Type::Tuple(tuple_type) => tuple_type.is_partial && tuple_type.fields.is_empty(),
         // `render_type` already parenthesises a union, so it needs no extra wrapping here.
         Type::Union(_) => true,
         _ => false,
